@@ -399,3 +399,24 @@ prop("C08",
      level_note="Trusted: harness/fsrc bookkeeping (bytes handed to the socket before a command was read). The full 32 MiB buffers of sendPSyncCmd are used. Behaviour over hours (retry counter reset) is out of reach.",
      assumptions=["the source closes a link only after its writes completed; the tool reads to EOF",
                   "after a drop the source answers PSYNC <runid> <o> with +CONTINUE and the bytes from offset o on"])
+
+prop("C19",
+     title="Configured passwords never appear in logs or status output",
+     observation_is_proof=True,
+     quick=[{"re": "^TestC19$", "checks": 3000},
+            {"re": "^TestC19Paths$", "checks": 45, "shards": 3, "timeout": 600}],
+     thorough=[{"re": "^TestC19$", "checks": 300000, "shards": 4, "timeout": 1700},
+               {"re": "^TestC19Paths$", "checks": 3000, "shards": 12, "timeout": 1700}],
+     rule="(safe options) generated password strings (some empty) in the four password fields: JSON, %v and %+v renderings of conf.GetSafeOptions() contain none "
+          "of them and the raw fields are masked. (paths) two distinct high-entropy sentinels are configured as source/target password everywhere (options, "
+          "SyncNode, connection helpers); a rapid case draws a run path and a log level {none,error,warn,info,debug} and runs that path's driver from the other "
+          "properties on generated inputs: single-entry restore (5 cases), parallel full sync / restore mode, incremental sync, resume with cut enumeration and "
+          "restarts (checkpoint load included), checkpoint loading on generated histories, rump, source re-discovery with failing nodes, syncer fail-over "
+          "sequences, PSYNC handshake/reconnect and dump, a complete DbSyncer.Sync() run (AUTH, checkpoint load, full sync, incremental, link drop and "
+          "reconnect), and the status documents (DbSyncer.GetExtraInfo, metric.NewMetricRest over it, configuration echo). Everything written to the tool's "
+          "logger during the case and every status document is scanned for both sentinels. Every other property's check also scans its whole log (counter "
+          "password_leaks_seen in its evidence). Non-trivial: a path run that produced >= 200 bytes of output. Distinct = hash of (path, level, bytes, time).",
+     technique="property-based testing (rapid): generated run paths x log levels x inputs with a sentinel-scan oracle over everything the tool prints or serves",
+     level_text="A leak needs a log statement on an exercised path that formats a structure holding a password: the check maximises exercised paths by reusing every other property's driver with sentinels configured, and scans all output. Statements on paths no driver reaches are not observed.",
+     level_note="Trusted: logcap (it replaces log.StdLog, so every record of the tool's logger passes through the scanner). Not exercised: redis-shake/main (does not build), tencent/aliyun scanners, sentinel discovery, cluster targets, the HTTP server itself (its documents are built and scanned directly).",
+     assumptions=["passwords are at least 6 characters (a 1-character password would match unrelated output)"])
